@@ -123,6 +123,9 @@ def cases(tier, seed):
                         if quick and norb == 3 and (stacked or not cq) and ev != "generic":
                             continue
                         yield {"k": "qc", "norb": norb, "mask": mask, "eri": ev, "stacked": stacked, "conserve_qn": cq}
+    # histories on one operator object: plain exchanges and Jordan-Wigner exchanges mixed within one sequence
+    for model in ("qc2", "spin-long"):
+        yield {"k": "swap", "model": model, "swap_jw": "mixed", "algo": "Hopcroft-Karp", "L": 2 if quick else 3}
     for model in ("qc2", "qc2-noqn", "qc1-U", "single-term", "spin4", "spin-long", "eph4"):
         for jw in (False, True):
             for algo in ("Hopcroft-Karp", "qr"):
@@ -253,14 +256,20 @@ def check_swaps(basis0, terms, algo, jw, L, viol, label, sigclass):
     nseq = 0
     D0 = np.asarray(Mpo(Model(list(basis0), terms), algo=algo).todense())
     w0 = np.linalg.eigvalsh((D0 + D0.conj().T) / 2)
+    mixed = jw == "mixed"
+    kindname = "mixed" if mixed else ("jw" if jw else "plain")
     for ln in range(1, L + 1):
-        for seq in itertools.product(range(n - 1), repeat=ln):
+        for seq0 in itertools.product(range(n - 1), repeat=ln):
+          for flags in (itertools.product((False, True), repeat=ln) if mixed else [(jw,) * ln]):
+            if mixed and len(set(flags)) == 1:
+                continue      # uniform sequences are the other cases
+            seq = seq0
             basis = list(basis0)
             mpo = Mpo(Model(list(basis0), terms), algo=algo)
             ref = D0.copy()
             dims = list(dims0)
             ok = True
-            for p in seq:
+            for p, jw in zip(seq, flags):
                 basis[p], basis[p + 1] = basis[p + 1], basis[p]
                 try:
                     mpo.try_swap_site(Model(list(basis), terms), swap_jw=jw, algo=algo)
@@ -269,7 +278,7 @@ def check_swaps(basis0, terms, algo, jw, L, viol, label, sigclass):
                     import traceback
                     tb = traceback.extract_tb(sys.exc_info()[2])
                     lib = [f.name for f in tb if "/renormalizer/" in f.filename]
-                    add(viol, f"C17:swap:exception:{type(e).__name__}:{lib[-1] if lib else '?'}:jw={jw}", f"{label} swaps {seq}: {e!r}")
+                    add(viol, f"C17:swap:exception:{type(e).__name__}:{lib[-1] if lib else '?'}:{kindname}", f"{label} swaps {seq} with swap_jw flags {flags}: {e!r}")
                     ok = False
                     break
                 # reference: exchange tensor factors p, p+1 (and apply the fermionic sign for swap_jw)
@@ -286,11 +295,11 @@ def check_swaps(basis0, terms, algo, jw, L, viol, label, sigclass):
             nseq += 1
             got = np.asarray(mpo.todense())
             if not close(got, ref, 1e-9, floor=1e-12):
-                add(viol, f"C17:swap:operator:{'jw' if jw else 'plain'}:{sigclass}",
-                    f"{label} algo={algo} swap_jw={jw} swaps {seq}: operator differs from the {'Jordan-Wigner image in the new orbital order' if jw else 'permuted operator'} by rel {rel_err(got, ref):.2e}")
+                add(viol, f"C17:swap:operator:{kindname}:{sigclass}",
+                    f"{label} algo={algo} swaps {seq} with swap_jw flags {flags}: operator differs from the {'permuted operator' if kindname == 'plain' else 'Jordan-Wigner image in the new orbital order'} by rel {rel_err(got, ref):.2e}")
             w1 = np.linalg.eigvalsh((got + got.conj().T) / 2)
             if not np.allclose(w1, w0, atol=1e-8 * max(1.0, np.abs(w0).max())):
-                add(viol, f"C17:swap:spectrum:{'jw' if jw else 'plain'}", f"{label} swaps {seq}: spectrum changed by {np.abs(w1 - w0).max():.2e}")
+                add(viol, f"C17:swap:spectrum:{kindname}", f"{label} swaps {seq}: spectrum changed by {np.abs(w1 - w0).max():.2e}")
             if [b.dofs for b in mpo.model.basis] != [b.dofs for b in basis]:
                 add(viol, "C17:swap:model-order", f"{label} swaps {seq}")
     return nseq
